@@ -20,6 +20,13 @@ def plan(tier, seed):
     # _metadata still describes)
     for h in ("h_find_max_part", "h_find_max_part_dirs", "h_find_max_part_order"):
         jobs.append(ch("C02", G, h, t, ["writer.find_max_part", "api.part_ids"]))
+    for nm in (2, 3):
+        # the schema elements handed to the serialiser hold integers in their enum fields (nullability modes that
+        # compute the repetition type)
+        j = ch("C02", "vf/pyshim/h_meta.py", "h_make_metadata", t, ["writer.make_metadata"],
+               shape=dict(has_nulls=["True", "False", "None", "list"][nm]), env=dict(VERIF_NULLMODE=nm))
+        j["name"] += "[has_nulls=%d]" % nm
+        jobs.append(j)
     jobs.append(ch("C02", H, "h_levels_no_nulls", t, ["writer.make_definitions", "core.skip_definition_bytes"]))
     jobs.append(ch("C02", H, "h_levels_with_nulls", t, ["writer.make_definitions (pages with NULLs)"]))
     jobs.append(dict(name="C02-lemma-dict-index-framing", kind="pyfunc", timeout=300,
